@@ -164,6 +164,13 @@ def run(tier, seed, replay=None):
                         files = [("a", Blob.rand(1, cl[a])), ("b", Blob.rand(2, cl[b]))]
                         run_case(run, tf, drv, files, pl, False, False, "grid")
     from harness.props import creation as cr
+    def still_fails(c):
+        probe = Run("C01", tier, seed, RULE)
+        files = [(rel, _blob(tok)) for rel, tok in c["files"]]
+        run_case(probe, tf, Driver(), files, c["pl"], c["single"], c["via_cli"], "shrink",
+                 spelling=c.get("spelling"))
+        return any(f.kind == "impl-vs-spec" for f in probe.failures)
+    run.shrinker = still_fails
     for (case, impl_pieces, spec_pieces), _, out in cr.settle_createfull(run, drv.run()):
         run.model_checked += 1
         parts = out.split(" ")
